@@ -8,6 +8,8 @@ import (
 	"sort"
 	"strconv"
 	"sync"
+	"time"
+	"verif/harness/proxy"
 
 	"github.com/google/uuid"
 	"github.com/semafind/semadb/conversion"
@@ -26,7 +28,10 @@ type M = trace.M
 // Runner drives one real shard and logs ShardTrace events.
 type Runner struct {
 	afterRepeat bool // the last request named a point twice (RepeatProbe)
-	staleRisk   bool // forced schedules: in this behaviour a search created / attached the shared cache object
+	CatchPanic  bool // trials that inject a panic: recover it around the request
+	Panicked    bool
+	SlowGet     time.Duration // every storage read inside a write transaction takes this long (0 = off)
+	staleRisk   bool          // forced schedules: in this behaviour a search created / attached the shared cache object
 	// although a batch had been committed (or was open) since its snapshot was taken (known finding C09-c)
 	Cfg    Config
 	R      *rand.Rand
@@ -80,6 +85,7 @@ func (r *Runner) Open(histNo int) error {
 		return err
 	}
 	r.Shard = s
+	r.slowDisk()
 	r.TW.Emit("Reset", M{"schema": r.Cfg.AbsSchema(), "pool": PoolRelations(r.Cfg.N()), "limit": LimitModel, "cfg": r.Cfg.Name, "mem": b2i(r.Cfg.Mem), "cache": cacheTag(r.Cfg.CacheSize)})
 	return nil
 }
@@ -109,6 +115,7 @@ func (r *Runner) Reopen() error {
 		return err
 	}
 	r.Shard = s
+	r.slowDisk()
 	r.TW.Emit("Quiet", M{"what": "reopen"})
 	return nil
 }
@@ -256,7 +263,7 @@ func b2i(b bool) int {
 }
 
 func (r *Runner) Insert(b []GenPoint) error {
-	err := r.Shard.InsertPoints(realBatch(b))
+	err := r.guard(func() error { return r.Shard.InsertPoints(realBatch(b)) })
 	if err == nil && !r.Trial {
 		for _, p := range b {
 			r.believedLive[p.ID] = true
@@ -269,7 +276,8 @@ func (r *Runner) Insert(b []GenPoint) error {
 }
 
 func (r *Runner) Update(b []GenPoint) error {
-	ids, err := r.Shard.UpdatePoints(realBatch(b))
+	var ids []uuid.UUID
+	err := r.guard(func() (e error) { ids, e = r.Shard.UpdatePoints(realBatch(b)); return })
 	upd := make([]int, len(ids))
 	for i, u := range ids {
 		upd[i] = IDOf(u)
@@ -287,7 +295,8 @@ func (r *Runner) Delete(ids []int) error {
 	for _, i := range ids {
 		set[UUIDOf(i)] = struct{}{}
 	}
-	del, err := r.Shard.DeletePoints(set)
+	var del []uuid.UUID
+	err := r.guard(func() (e error) { del, e = r.Shard.DeletePoints(set); return })
 	d := make([]int, len(del))
 	for i, u := range del {
 		d[i] = IDOf(u)
@@ -696,4 +705,27 @@ func (r *Runner) WriteRace(k int) {
 	}
 	r.Batches++
 	r.TW.Emit("WriteRace", M{"ops": log, "P": r.proj()})
+}
+
+// slowDisk puts the storage proxy with a read delay between the shard and its file.
+func (r *Runner) slowDisk() {
+	if r.SlowGet > 0 && !r.Cfg.Mem {
+		px := proxy.Wrap(r.Shard.VerifDB())
+		px.GetDelay = r.SlowGet
+		r.Shard.VerifSetDB(px)
+	}
+}
+
+// guard runs a request; in a trial that injects a panic the panic is caught here, as a request handler's
+// recover would catch it, and reported as the request's error.
+func (r *Runner) guard(f func() error) (err error) {
+	if r.CatchPanic {
+		defer func() {
+			if rec := recover(); rec != nil {
+				err = fmt.Errorf("panic: %v", rec)
+				r.Panicked = true
+			}
+		}()
+	}
+	return f()
 }
